@@ -181,7 +181,9 @@ def harness(L, sw, ch, sr, K, mode, group):
                 got2 = list(core.split(data, sr=sr, sw=sw, ch=ch, analysis_window=aw, validator=mkval(), mr=mr, **skw))
                 got3 = list(core.split(data, sr=sr, sw=sw, ch=ch, analysis_window=aw, validator=mkval(), max_read=mr, mr=SymRat(Mq + 8, 4 * sr), **skw))
                 got4 = list(core.split("in.wav", analysis_window=aw, validator=mkval(), max_read=mr, large_file=True, **skw))
-                for k_, r in (("max_read", got1), ("mr", got2), ("both, long wins", got3), ("lazy wav", got4)):
+                got5 = list(core.split(core.AudioRegion(data, sr, sw, ch), analysis_window=aw, validator=mkval(), max_read=mr, **skw))
+                got7 = list(core.split(iom.BufferAudioSource(data, sr, sw, ch), analysis_window=aw, validator=mkval(), max_read=mr, **skw))
+                for k_, r in (("max_read", got1), ("mr", got2), ("both, long wins", got3), ("lazy wav", got4), ("region", got5), ("source", got7)):
                     conds[("max_read=t equals splitting the first round(t*rate) samples", k_)] = regions_equal(want, r)
         except Exception as ex:
             m = e.model()
@@ -327,6 +329,8 @@ def replay_fn(c):
             runs["max_read"] = lambda: ak.split(data, sr=sr, sw=sw, ch=ch, analysis_window=aw, validator=val(), max_read=mr, **skw)
             runs["mr"] = lambda: ak.split(data, sr=sr, sw=sw, ch=ch, analysis_window=aw, validator=val(), mr=mr, **skw)
             runs["max_read and mr"] = lambda: ak.split(data, sr=sr, sw=sw, ch=ch, analysis_window=aw, validator=val(), max_read=mr, mr=mr + 2 / sr, **skw)
+            runs["max_read on an AudioRegion"] = lambda: ak.split(ak.AudioRegion(data, sr, sw, ch), analysis_window=aw, validator=val(), max_read=mr, **skw)
+            runs["max_read on an AudioSource"] = lambda: ak.split(rio.BufferAudioSource(data, sr, sw, ch), analysis_window=aw, validator=val(), max_read=mr, **skw)
             runs["max_read on a lazy wav file"] = lambda: ak.split(wav, analysis_window=aw, validator=val(), max_read=mr, large_file=True, **skw)
             desc += ", max_read=%r (%d samples)" % (mr, M)
         if c["group"] == "containers":
